@@ -891,6 +891,10 @@ int EGLPNUM_TYPENAME_ILLsimplex (
 	{
 		rval = EGLPNUM_TYPENAME_ILLbasis_load (lp, B);
 		CHECKRVALG (rval, CLEANUP);
+		/* whatever an earlier solve left in pinf (norms of either kind, heap,
+		 * partial pricing buckets) belongs to another basis and possibly to other
+		 * dimensions: only the norms that come with B are valid */
+		EGLPNUM_TYPENAME_ILLprice_free_pricing_info (pinf);
 		if (it.algorithm == DUAL_SIMPLEX)
 		{
 			if (B->rownorms)
